@@ -623,10 +623,28 @@ func c06WalkGuard(r *core.Run, p *core.Program, rule string) {
 				// the "no data" outcome must leave the function without a further step
 				okExit := false
 				for _, bb := range fn.Blocks {
-					if iff, isIf := bb.Instrs[len(bb.Instrs)-1].(*ssa.If); isIf && an.Expr(iff.Cond) == cond {
+					iff, isIf := bb.Instrs[len(bb.Instrs)-1].(*ssa.If)
+					if !isIf {
+						continue
+					}
+					// whichever way the test is written: the edge on which the count is 0
+					x, y, rel, isCmp := an.CondCmp(iff.Cond)
+					k, isC := an.ConstOf(y)
+					if !isCmp || !isC || !k.IsInt64() || an.Expr(x) != e+".Parent.TxCount" {
+						continue
+					}
+					zeroTrue := relHolds(rel, 0, k.Int64())
+					if relHolds(rel, 1, k.Int64()) == zeroTrue || relHolds(rel, 2, k.Int64()) == zeroTrue {
+						continue
+					}
+					noData := bb.Succs[1]
+					if zeroTrue {
+						noData = bb.Succs[0]
+					}
+					{
 						okExit = true
 						seen := map[*ssa.BasicBlock]bool{}
-						st := []*ssa.BasicBlock{bb.Succs[0]}
+						st := []*ssa.BasicBlock{noData}
 						for len(st) > 0 {
 							x := st[len(st)-1]
 							st = st[:len(st)-1]
